@@ -86,3 +86,29 @@ def schemeOf (kty : Nat) (alg : Int) : Option (SigScheme × Nat) :=
 def supportedEC2Curve (crv : Int) : Bool := crv = 1 || crv = 2 || crv = 3
 
 end WebAuthn.Spec.Cose
+
+namespace WebAuthn.Spec.Cose
+open WebAuthn
+
+/-- Declarative classification of the members of a COSE_Key map (RFC 8152 §13, RFC 8230 §4, WebAuthn §5.8.5):
+    `kty` (label 1), `alg` (label 3, 0 = absent), label −1 as integer (`crv`) resp. byte string (`n`), labels −2, −3.
+    `none` = not a supported key. -/
+inductive KeyClass where
+  | ec2 (alg crv : Int) (x y : Bytes)
+  | okp (x : Bytes)
+  | rsa (alg : Int) (n e : Bytes)
+  deriving Repr, DecidableEq
+
+def classify (kty alg crvInt : Int) (m1Bytes m2 m3 : Bytes) : Option KeyClass :=
+  if kty = 2 then
+    if (crvInt = 1 ∨ crvInt = 2 ∨ crvInt = 3) ∧ (alg = ES256 ∨ alg = ES384 ∨ alg = ES512) then
+      some (.ec2 alg crvInt m2 m3) else none
+  else if kty = 1 then
+    if (alg = EdDSA ∨ alg = 0) ∧ crvInt = 6 ∧ m2.length = 32 then some (.okp m2) else none
+  else if kty = 3 then
+    if (alg = RS1 ∨ alg = RS256 ∨ alg = RS384 ∨ alg = RS512 ∨ alg = PS256 ∨ alg = PS384 ∨ alg = PS512)
+        ∧ Bytes.beNat m2 < 2 ^ 63 then
+      some (.rsa alg m1Bytes m2) else none
+  else none
+
+end WebAuthn.Spec.Cose
